@@ -158,6 +158,12 @@ def _run_part_hyp(part, ctx, deadline_at):
         pass
     except Violation:
         pass
+    except Exception:
+        # Hypothesis reports a failure that does not reproduce on its own replay as "flaky" (an exception group). Where a
+        # violation depends on something outside the case (which thread identifier the OS hands out, timing under load),
+        # the violation that was observed and recorded still stands; anything else is a harness error.
+        if not failures:
+            raise
     if failures:
         failures.sort(key=lambda f: f[0])
         _, case, rel, det = failures[0]
